@@ -12,6 +12,7 @@ struct Step
     Op      op;
     bool    splice{false};        // candidate no-effect call: omitted on the bare twin if the model predicts no effect
     bool    probe_nonlive{false}; // after the step also look up the keys the model says are absent
+    int64_t drift_ns{0};          // range steps: the clock moves on by this much with every read inside the range call
 };
 
 struct SeqPlan
